@@ -35,6 +35,21 @@ sets/lists with duplicates and unknown ids — is canonicalised and compared wit
 the model of *that* backend.  Raw `_add_node` / `_get_entry` / write-group /
 reopen scripts against IndexGitShaMap are compared with the layered model.
 
+Added in the improvement round: (i) cross-kind queries (lookup_blob_id of a key
+recorded only for a tree and vice versa) are issued to every backend; the
+in-memory backend is compared with a literal model of its ONE shared
+`_by_fileid` dict (`run dictshared`, chosen by a probe; `run dict` once blob and
+tree ids are kept apart); (ii) the `_add_node` calls IndexCacheUpdater.add_object
+makes for every kind of op are recorded and compared with the model's `opNodes`
+(key tuples and space-joined values); (iii) after every checkpoint the raw index
+entries (`_get_entry` of every git / blob / commit key, on the live map and on a
+re-opened IndexGitShaMap) are compared with the layered model run on the same
+write groups (`groups`: IdxStore.runGroups, reopen with the files reversed) —
+the executable side of index_store_refines / index_reopen_answers; (iv) the
+hypothesis cross-check uses both flags: `okSeq okSqlite` true with sqlite
+disagreeing, or `okSeq okIndex` true with index disagreeing, is a tie failure
+(same-kind queries only).
+
 Oracle (independent of the model): for the functional sequences every backend's
 answers are compared with the in-memory backend's, query by query, before and
 after reopen (NotImplementedError of lookup_tree_id counts as an abstention);
@@ -53,6 +68,11 @@ update sequence and the query — both are properties of the on-disk formats):
                                 (fileid, revid) deletes the first row
                                 (lookup_tree_id -> KeyError, lookup_git_sha shows
                                 only the newest key).
+New finding of the improvement round (family computed from the ops and the query):
+  dict-blob-tree-ids-shared     DictGitShaMap answers lookup_blob_id for a key that
+                                only a TREE add used (and lookup_tree_id for a blob
+                                key) with that object's sha — one dict holds both —
+                                while sqlite and index raise KeyError.
 Fixed in /repo (26ff82f) and therefore plain VIOLATIONs if they return:
 SqliteGitShaMap.sha1s() raising AttributeError on a non-empty map, and
 IndexGitShaMap overwriting the .rix file of an earlier write group when the
@@ -80,6 +100,10 @@ concrete sequence + query, and by T2):
   R3 fix 26ff82f reverted: sha1s() of the sqlite backend raises AttributeError
      and a write group applied twice wipes the index file — plain VIOLATIONs
      (probe + corpus/C38/same-revision-converted-twice.json + every sha1s query);
+  improvement round (on the tree with blob/tree ids kept apart): MA DictGitShaMap.lookup_blob_id
+     falling back to the tree ids, MB SqliteGitShaMap.lookup_blob_id falling back to the trees
+     table (both need a cross-kind query), MC IndexCacheUpdater writing a blob node for trees
+     (cross-kind query, `nodes` and raw index entries) — all caught by oracle and T2;
   harmless: DictCacheUpdater's setdefault + assignment split in two statements;
   Sqlite lookup_blob_id with the WHERE conjuncts (and bindings) swapped — clean.
 """
@@ -105,10 +129,11 @@ ASSUMPTIONS = [
     "file ids and revision ids contain no whitespace or NUL (breezy's id rules); the index backend's value format relies on it",
     "update sequences produced from native histories are functional: a (fileid, revision) key and a revid always get the same sha (checked per recorded sequence)",
     "queries are made between write groups and never between add_object and finish",
+    "cross-kind queries are issued only for keys used by one kind (generated and native sequences never use a (fileid, revision) for both a blob and a tree)",
 ]
 TRUSTED = [
     "sqlite3, bzrformats' BTreeGraphIndex / CombinedGraphIndex / BTreeBuilder and the tdb module are exercised, not modelled; the model describes the tables' unique indices and _add_node's add-if-absent rule",
-    "DictGitShaMap keeps blob and tree ids in one dict (cross-kind lookups are not issued)",
+    "the decoding of index node values (split on spaces, value[:40]) is exercised through the queries, not modelled; the refinement theorems speak about the encoded node values; commit shas are 40 bytes (Op.wf)",
 ]
 
 SHAS = [hashlib.sha1(b"obj%d" % i).hexdigest().encode() for i in range(10)]
@@ -608,6 +633,17 @@ def direct_laws(ops, qs, answers, rows=True):
 # --------------------------------------------------------------------------
 # one sequence on all backends
 
+def _environment_error(e):
+    """disk full / out of file descriptors / out of memory: infrastructure (exit 2), never a finding"""
+    import errno
+    import sqlite3
+    if isinstance(e, MemoryError):
+        return True
+    if isinstance(e, OSError) and e.errno in (errno.ENOSPC, errno.EDQUOT, errno.EMFILE, errno.ENFILE, errno.ENOMEM):
+        return True
+    return isinstance(e, sqlite3.OperationalError) and any(w in str(e) for w in ("disk", "full", "unable to open"))
+
+
 def run_sequence(ctx, source, groups, functional, sink):
     names = available_backends()
     backs = {}
@@ -624,6 +660,8 @@ def run_sequence(ctx, source, groups, functional, sink):
                 try:
                     backs[n].apply_group(group, ctx.rng)
                 except Exception as e:
+                    if _environment_error(e):
+                        raise env.InfraError("C38: %s while applying a write group: %s" % (type(e).__name__, e))
                     ctx.violation(dict(base_case, backend=n, group=gi),
                                   "%s backend: applying write group %d raised %s: %s" % (n, gi, type(e).__name__, str(e)[:200]))
                     ctx.count("apply-raised:%s" % n)
